@@ -7,6 +7,12 @@ BASE_OFF = ("cd /repo && env -u GIN_CONFIG_VERIF /venv/bin/python -m pytest -ra 
 
 CHECKS = {
 
+  'C02': ('model_checking',
+          'TLA+ spec GinSyntax.tla (cursor parser transcribed from config_parser.py vs split-based reference grammar) model-checked with TLC over all token strings up to a bound; TLC-exported token strings concretised and parsed by gin; CPython-tokenised generated texts validated by TLC against the spec parser',
+          'TLC checks in every state (every token string up to length 4-6 over 7-18 token kinds) that the transcribed recursive-descent value parser accepts exactly the literal grammar with the grammar\'s unique value and is layout-invariant; all explored strings up to length 3 plus random strings up to length 7 are concretised (lexeme and layout pools) and parsed by the real gin, compared by outcome class, shape and exact equality with ast.literal_eval; generated literals to depth 3 and near-misses are tokenised by CPython and the real outcome validated by TLC.',
+          'Oracle for lexemes and whole literals: CPython tokenize / ast.literal_eval. Token kinds abstract lexemes.',
+          'DESIGN.md section 6 C02'),
+
   'C04': ('model_checking',
           'TLA+ spec GinCore.tla (recursive Eval / CallW vs declarative ExpEvals) model-checked with TLC incl. an expected-violation control; TLC behaviours replayed into gin with counting probes',
           'TLC checks that the evaluation log of every call equals one invocation per occurrence of an evaluated reference in Gin-supplied parameters (recursively, right scope) and none for caller-supplied ones; the pre-fix keyword-override behaviour is a control that must violate it; behaviours over nested containers are replayed into gin, result objects compared structurally, consumers mutate what they receive.',
